@@ -648,9 +648,13 @@ Fixpoint c05_walk (f : frame) (keys : list str) (its : list hitem) (cur : list (
     else match level_of f keys text with
          | None => 5
          | Some l =>
+           (* a heading of level l opens a new hierarchical group: inner headings must follow it again *)
+           let cur' := map (fun ic => let '(i, c) := ic in
+                                      if Nat.eqb i l then Some text else if Nat.ltb l i then None else c)
+                           (combine (seq 0 (length cur)) cur) in
            match last_level with
-           | Some l0 => if Nat.ltb l0 l then c05_walk f keys r (set_nth cur l (Some text)) (Some l) else 2
-           | None => c05_walk f keys r (set_nth cur l (Some text)) (Some l)
+           | Some l0 => if Nat.ltb l0 l then c05_walk f keys r cur' (Some l) else 2
+           | None => c05_walk f keys r cur' (Some l)
            end
          end
   | HRow t :: r =>
